@@ -76,14 +76,18 @@ Step ==
          \* outside the alphabet of Apply: a refused request and a read change
          \* nothing; anything else is taken as observed
          keeps == ln.resp.status >= 400 \/ ln.req.method \in {"GET", "HEAD", "OPTIONS"}
+         \* the reading of the request under which the observed status is the prescribed one
+         alts == IF opaque THEN {} ELSE {x \in Readings(ln.req) \ {ln.req} : Apply(pre, x).resp.status = ln.resp.status}
+         rq   == IF opaque \/ alts = {} THEN ln.req
+                 ELSE IF Apply(pre, ln.req).resp.status = ln.resp.status THEN ln.req ELSE CHOOSE x \in alts : TRUE
          exp  == IF opaque THEN [s |-> IF keeps THEN pre ELSE post, resp |-> ln.resp]
-                 ELSE Apply(pre, ln.req)
+                 ELSE Apply(pre, rq)
          chain == IF ln.reset THEN {} ELSE IF pre = s THEN {} ELSE {"chain"}
-         diff == StateDiff(exp.s, post) \cup RespDiffOp(ln.req.op, exp.resp, ln.resp) \cup chain
+         diff == StateDiff(exp.s, post) \cup RespDiffOp(rq.op, exp.resp, ln.resp) \cup chain
          mon  == IF opaque
                  THEN StateMonitors(pre, post, ln.reset)
                       \cup (IF keeps /\ post # pre THEN {"C04_Step"} ELSE {})
-                 ELSE StepMonitors(pre, ln.req, ln.resp, post, ln.reset)
+                 ELSE StepMonitors(pre, rq, ln.resp, post, ln.reset)
      IN /\ PrintT(<<"PV", ln.id, diff, mon, exp.resp.status, exp.resp.code>>)
         /\ (diff \cap {"body"} # {} => PrintT(<<"PVBODY", ln.id, exp.resp.body>>))
         /\ (diff \ {"status", "code", "body", "chain"} # {} => PrintT(<<"PVSTATE", ln.id, exp.s>>))
